@@ -109,7 +109,9 @@ def _worker(task):
     import klepto.keymaps as km
     res = {'counts': collections.Counter(), 'violations': [], 'samples': [], 'nontrivial': 0, 'outcomes': [],
            'config': task}
-    mk = {'string': lambda: km.stringmap(flat=False), 'pickle': lambda: km.picklemap(serializer='dill')}[kmname]
+    # ('raw': keys hold the rounded arguments themselves; an unhashable one makes a safe decorator fall back to calling the
+    # function directly -- with the caller's arguments, not with the rounded ones the key was being built from)
+    mk = {'string': lambda: km.stringmap(flat=False), 'pickle': lambda: km.picklemap(serializer='dill'), 'raw': lambda: km.keymap()}[kmname]
     vals = values(tier) if full else values('quick')[::3]
     received = []
 
@@ -208,7 +210,12 @@ def _worker(task):
                                                         cfgtxt, (a, k), key, repr(list(W.__cache__().keys())[-3:])[:300]),
                                                     {'task': list(task), 'value': repr(v), 'form': form}))
                 # ... and calls that round to the same values are answered from one entry: the second is not evaluated
-                if alg != 'no':
+                try:
+                    hash(key)
+                    keyable = True
+                except TypeError:
+                    keyable = False         # (nothing can be stored under such a key: every call is evaluated)
+                if alg != 'no' and keyable:
                     if want in called and len(received) > n0:
                         res['violations'].append(_v('C12', {'rule': 'same-rounding-recomputed', 'kind': kind, 'deep': bool(deep)},
                                                     '%s: call %r rounds to %s like the earlier call %r, but the function was evaluated again' % (
@@ -356,6 +363,8 @@ def run(tier, seed):
                 if (mod, alg) == ('klepto', 'inf'):
                     continue
                 tasks.append((tier, mod, alg, tol, deep, 'string', True))
+                if mod == 'safe':
+                    tasks.append((tier, mod, alg, tol, deep, 'raw', True))
     for name in ('simple_round', 'shallow_round', 'deep_round'):
         for tol in TOLS:
             for via in ('direct', 'dill', 'deepcopy'):
